@@ -635,7 +635,11 @@ theorem place_succ {all : List Token} {f : Nat} (ih : PlaceAt all f) : PlaceAt a
           obtain ⟨rfl, rfl⟩ := h2
           exact ⟨k + 1, by simp, by simp [PIdxSpec.mk, erase, PKw.erase, placeG, he, hk]⟩
         · cases h2
-      · cases h
+      · obtain ⟨p, hp, h2⟩ := Res.bind_eq_ok.mp h
+        obtain ⟨k, hk, hdk⟩ := ih.expr _ p hp
+        simp only [Res.ok.injEq, Prod.mk.injEq] at h2
+        obtain ⟨rfl, rfl⟩ := h2
+        exact ⟨k, hdk, by simp [PIdxSpec.mk, erase, placeG, he, hk]⟩
     · obtain ⟨p, hp, h2⟩ := Res.bind_eq_ok.mp h
       obtain ⟨k, hk, hdk⟩ := ih.expr _ p hp
       simp only [Res.ok.injEq, Prod.mk.injEq] at h2
